@@ -197,6 +197,27 @@ func genC09(g *Gen) {
 		op := []string{"timedec", "freqdec", "pctdec", "hexdec"}[r.Intn(4)]
 		g.add(op + " " + hx(t))
 	}
+	// every text of length 0..2 over the characters the text decoders look at (prefix handling, signs, separators)
+	alpha := []byte("01x9aAgG-+.eE:TZ\" ,\x00\xff")
+	var shortTexts [][]byte
+	shortTexts = append(shortTexts, []byte{})
+	for _, a := range alpha {
+		shortTexts = append(shortTexts, []byte{a})
+		for _, b := range alpha {
+			shortTexts = append(shortTexts, []byte{a, b})
+		}
+	}
+	for _, t := range shortTexts {
+		for _, op := range []string{"hexdec", "timedec", "freqdec", "pctdec"} {
+			g.add(op + " " + hx(t))
+		}
+		// the same text inside a JSON string field of type HEXBytes / ISO8601Time / Frequency
+		if len(t) > 0 && t[0] != '"' && t[0] != '\\' && t[0] >= 0x20 && t[0] < 0x7f && (len(t) < 2 || (t[1] != '"' && t[1] != '\\' && t[1] >= 0x20 && t[1] < 0x7f)) {
+			g.addf("jsonpl 0 %s", hexOfText(`{"PHYPayload":"`+string(t)+`"}`))
+			g.addf("jsonpl 6 %s", hexOfText(`{"ULMetaData":{"RecvTime":"`+string(t)+`"}}`))
+			g.addf("jsonpl 21 %s", hexOfText(`{"PingSlotFreq":`+string(t)+`}`))
+		}
+	}
 	for l := 0; l <= 48; l++ {
 		g.addf("kunwrap %s %s", hx(r.Bytes(16)), hx(r.Bytes(l)))
 		g.addf("kunwrap %s %s", hx(r.Bytes(r.Intn(40))), hx(append([]byte{0xa6, 0xa6, 0xa6, 0xa6, 0xa6, 0xa6, 0xa6, 0xa6}, r.Bytes(l)...)))
